@@ -93,6 +93,13 @@ fn run(s: &Spec) -> Case {
                           other => if bad.is_none() { bad = Some(format!("frame {f}: {:?}", other.as_ref().map(|r| r.as_ref().map(|_| ())))) } }
             }
             if bad.is_none() && whole != Some(Ok(cat)) { bad = Some("whole-object result is not the concatenation of the per-frame results".into()); }
+            // the same object read back from its file image decodes to the same samples
+            if bad.is_none() && s.frags.len() % 3 == 1 {
+                match catch(|| file_round_trip(&obj).map(|o| o.decode_pixel_data().map(|d| d.data().to_vec()).map_err(|e| px_err_class(&e)))) {
+                    Some(Some(Ok(v))) if v == all => {}
+                    other => bad = Some(format!("after a file round trip the whole-object decode gives {:?}", other.map(|o| o.map(|r| r.map(|v| v.len()))))),
+                }
+            }
             let class = if s.bits == 8 && s.spp == 1 { "rle-8bit-mono" } else if s.bits == 16 && s.spp == 3 { "rle-16bit-rgb" } else { "rle-decode" };
             match bad { None => Oracle::Holds, Some(d) => Oracle::Fails { class: class.into(), detail: d } }
         }
